@@ -5,6 +5,9 @@ props = [json.loads(l) for l in open(os.path.join(VERIF, "properties.jsonl"))]
 
 # id -> (technique, level text, level note, design ref); absent = not yet claimed
 CLAIMED = {
+    "C16": ("Lean 4: executable model of the generator (Gen) proved to agree with an independent reading of a definition (classes, order, names, Kafka/struct types, tags, class variables, nullability except primitive arrays) for every definition, under three side conditions each shown necessary by a kernel-checked counterexample + the real generator run on PRNG-generated definitions",
+            "Kio.C16.classes / fields / class_vars / header_rule / nullability_partial for every MsgDef on which generation succeeds; primarr_nullable_witness is the listed known finding C16/H; pinned_agree shows the hypotheses hold on all 666 real (definition, version) pairs. On the code: codegen.generate_schema + build_index run in a scratch tree on 40 (quick) generated definitions per run; generated modules imported in a subprocess and compared with the independent reading and with Gen; instances of the generated classes encoded by the real writer and compared with Spec.enc of Gen's schema; the index must list exactly the generated modules. Partial: coherence of every generated class and byte agreement are checked per run, not proved for an explicit Supported predicate; text emission and pydantic are modelled at descriptor level.",
+            "Lean kernel; same axioms; the supported subset is delimited by harness/defgen.py (documented in DESIGN.md §6.16).", "§6.16"),
     "C04": ("Lean 4: executable model of the generator (Gen) evaluated by the kernel on the pinned definitions and compared class-by-class, field-by-field with the regenerated tables (16 parallel shards); independent API-table and error-code pins; the real generator re-run on the pinned definitions in a scratch tree",
             "Kio.C04.gen_pinned_eq_shipped (decide +kernel): every walked module equals Gen(pinned definition, version) in names, order, annotations, nullability, tags, defaults, flexibility, key, header and dataclass options; Kio.C04.all_defs_generated, api_table, error_codes. On the code: codegen.generate_schema + build_index run on the 186 pinned definitions outside /repo, output imported in a subprocess and compared with the shipped package; Gen compared with that output.",
             "Lean kernel; same axioms; the pinned definitions are RECONSTRUCTED from the pristine tree (upstream JSON unavailable offline): fidelity to upstream only through the independent API table pin (DESIGN §6.4).", "§6.4"),
